@@ -17,7 +17,7 @@ Module Names.
 Import Coq.Strings.String.
 (* OBLIGATION *)
 Theorem translated_functions :
-  H.translated = ["Clear"; "Empty"; "Get"; "Keys"; "New"; "Put"; "Remove"; "Size"; "Values"]%string
+  H.translated = ["Clear"; "Empty"; "FromJSON"; "Get"; "Keys"; "MarshalJSON"; "New"; "Put"; "Remove"; "Size"; "ToJSON"; "UnmarshalJSON"; "Values"]%string
   /\ H.skipped = ["String"]%string /\ H.not_selected = [].
 Proof. repeat split. Qed.
 Print Assumptions translated_functions.
